@@ -24,12 +24,15 @@ LEAN_MODULES = ["DaskModel.Props.C24"]
 CASE_TIMEOUT_S = 30
 LEVEL_TEXT = ("Lean 4 theorems for one-axis block plans: concat_den / concat_blocks (concatenate's key map = blockOf on block "
               "counts; result chunks and values), roll_den (two-slice concatenate = NumPy roll for every shift), repeat_den, "
+              "shuffle_den (take/shuffle: per-source-chunk fancy getitem of the sorted taker + concatenate + "
+              "take(argsort(sorter)) puts taker[p] at position p, for every chunking and taker) and packGroups_flatten "
+              "(the grouping loop loses/reorders nothing; instantiated at the tolerance extracted from dask.yaml), "
               "pad_reuse_den_partial (reflect/symmetric/wrap = NumPy's periodic extension when the pad width does not "
               "exceed the axis) with pad_reuse_refuted (false beyond that: known finding #16), expand_tuple_spec, "
               "contract_tuple_spec, reshape_merge_den (C-order index preserved when merged chunks tile whole rows). "
               "Everything else in the statement (transpose/moveaxis/swapaxes, squeeze/expand_dims, stack/block, "
-              "broadcast_to, flip/rot90, take/shuffle, tile, other pad modes, tril/triu, diff, the full "
-              "reshape_rechunk) is validated against NumPy over irregular chunkings, not proved.")
+              "broadcast_to, flip/rot90, tile, other pad modes, tril/triu, diff, the full reshape_rechunk) is validated "
+              "against NumPy over irregular chunkings and empty axes, not proved.")
 LEVEL_NOTE = ("Trusted: Lean kernel + standard axioms; the harness; NumPy block kernels; n-d = product of one-axis plans "
               "(validated). Known findings: pad reflect/symmetric/wrap with pad width > axis length (wrong shape/values).")
 TECHNIQUE = "Lean 4 proof (list/index-map lemmas per operation plan) + differential correspondence"
@@ -39,6 +42,7 @@ ASSUMPTIONS = [
     "NumPy kernels on one block (reshape, transpose, getitem, concatenate, repeat, where) are NumPy's",
 ]
 TRUSTED = []
+TABLES = ["ChunkTolerance"]
 REUSE = ("reflect", "symmetric", "wrap")
 
 
@@ -206,7 +210,11 @@ def case_pad1d(ctx, inp):
     cs, l, rr, mode = inp["cs"], inp["l"], inp["r"], inp["mode"]
     x, d = _mk([cs])
     n = len(x)
-    e = np.pad(x, (l, rr), mode=mode)
+    try:
+        e = np.pad(x, (l, rr), mode=mode)
+    except ValueError:
+        ctx.note("np.pad rejects the arguments (e.g. extending an empty axis)")
+        return
     m = ctx.lean(Sym("pad"), Sym(mode), [int(v) for v in x], l, rr)
     ctx.eq("np.pad vs Lean padSpec (periodic extension)", m[1], e.tolist())
     lim = n - 1 if mode == "reflect" else n
@@ -286,6 +294,20 @@ def case_op(ctx, inp):
         groups, ax = inp["groups"], inp["axis"]
         r = d.shuffle(groups, axis=ax)
         e = np.take(x, [i for g in groups for i in g], axis=ax)
+        # function level: the grouping loop and (1-d) the gathered values vs the Lean plan
+        import dask
+        from dask.array._shuffle import _shuffle
+        axc = d.chunks[ax]
+        tol = dask.config.get("array.chunk-size-tolerance")
+        limit = int(sum(axc) / len(axc) * tol)
+        out_chunks, layer = _shuffle(d.chunks, groups, ax, d.name, "out", "tok")
+        if layer:
+            m = ctx.lean(Sym("shuffle"), list(axc), groups, limit, [int(v) for v in x] if x.ndim == 1 else [0] * sum(axc))
+            ctx.eq("_shuffle: output chunks vs Lean packGroups (extracted tolerance)", [len(t) for t in m[0]], list(out_chunks[ax]))
+            if x.ndim == 1 and r.chunks[0] == tuple(out_chunks[ax]):
+                blocks = [np.asarray(r.blocks[i].compute(scheduler="sync")).tolist() for i in range(len(r.chunks[0]))]
+                ctx.eq("shuffle: block values vs Lean shuffleChunk", m[1], blocks)
+            ctx.branch("shuffle:model")
     elif op == "repeat":
         r, e = da.repeat(d, inp["repeats"], axis=inp["axis"]), np.repeat(x, inp["repeats"], axis=inp["axis"])
     elif op == "tile":
@@ -307,7 +329,11 @@ def case_op(ctx, inp):
             kw["end_values"] = inp["ev"]
         if mode in ("maximum", "minimum", "mean") and inp.get("stat_length") is not None:
             kw["stat_length"] = inp["stat_length"]
-        e = np.pad(x, pw, mode=mode, **kw)
+        try:
+            e = np.pad(x, pw, mode=mode, **kw)
+        except ValueError:
+            ctx.note("np.pad rejects the arguments (e.g. extending an empty axis)")
+            return
         if mode in REUSE and any(max(p) > (s - 1 if mode == "reflect" else s) for p, s in zip(pw, x.shape)):
             sig = f"pad:{mode}:width-exceeds-axis"
         if mode in ("maximum", "minimum", "mean") and 0 in x.shape:
@@ -572,6 +598,16 @@ def generate(ctx):
             axis = axis - nd
         yield "concat", {"op": op, "axis": axis, "chunkss": chunkss,
                          "numpy": [i for i in range(k) if rng.random() < 0.15]}
+    # --- take / shuffle along a 1-d axis: the `_shuffle` plan vs the Lean model ------------------------------
+    for _ in range(ctx.n(70, 900)):
+        n = rng.randint(1, 14)
+        pool = [rng.randrange(n) for _ in range(rng.randint(1, 2 * n))] if rng.random() < 0.6 else rng.sample(range(n), n)
+        groups, i = [], 0
+        while i < len(pool):
+            k = rng.randint(1, 5)
+            groups.append(pool[i:i + k])
+            i += k
+        yield "op", {"op": "shuffle", "chunks": [rand_comp(rng, n)], "axis": 0, "groups": groups}
     # --- every operation, API level ------------------------------------------------------------------------
     for _ in range(ctx.n(360, 6000)):
         yield "op", _gen_op(rng)
